@@ -6,6 +6,11 @@ from ..driver import Part
 from .. import common as C
 
 from .. import srcfacts
+from .. import srctie
+
+INBOX_TIE_THEOREMS = ["sim_step", "sim_reach", "C02_src_receive_mutex", "C01_src_conservation",
+                      "C01_C03_src_quiescent_is_drained", "C03_src_terminates", "C03_src_no_infinite_run", "C03_src_no_deadlock"]
+INBOX_TIE_DEPS = ["Inbox.v", "InboxExec.v", "InboxProofs.v", "InboxSrcSem.v"]
 
 _FACTS = srcfacts.inbox_facts()
 _NAMES = {"stopped": "Stopped", "starting": "Starting", "idle": "Idle", "running": "Running"}
@@ -91,6 +96,7 @@ class InboxSched(Part):
         return q + (t if tier == "thorough" else [])
 
     def generate(self, rng, tier):
+        self._tier = tier
         out = []
         for k, cfg in enumerate(self.configs(tier)):
             (senders, starter, cap, mode, mx), tp = cfg[:5], (cfg[5] if len(cfg) > 5 else None)
@@ -128,7 +134,16 @@ class InboxSched(Part):
         return terms
 
     def extra_coverage(self, inputs, obs):
+        # translation tie (DESIGN.md 0.10): actor/inbox.go is re-translated to CMini terms and the step-by-step
+        # simulation with Inbox.v plus the transferred theorems are re-proved against those terms; information only
+        tie = srctie.translation_tie("inboxtie", "inboxtrans", "actor/inbox.go", "InboxSrc.v", "InboxSrcProofs.v",
+                                     INBOX_TIE_THEOREMS, INBOX_TIE_DEPS, getattr(self, "_tier", "quick"))
+        n = srctie.note("C%02d" % self.prop if self.prop else "C01-C03", tie)
+        if n:
+            print(n, flush=True)
+        C.log("translation tie (inbox): %s" % json.dumps(tie)[:800])
         return dict(
+            translation_tie=tie,
             schedules_enumerated=sum(o.get("executions", 1) for o in obs),
             states=sum(o.get("states", 0) for o in obs),
             transitions=sum(o.get("transitions", 0) for o in obs),
